@@ -394,6 +394,36 @@ def h_jacobi_rotation(eng, i, j):
     eng.check(And(dvec[0] <= dvec[1], dvec[1] <= dvec[2], dvec[2] <= dvec[3]), "ascending")
 
 
+def h_tetrahedral_movers(eng, resname, centre):
+    """Residue.rotate_tetrahedral(atom1, atom2, angle) turns exactly the atoms bonded to atom2 other than atom1 -
+    whichever bonded neighbour of atom2 is the axis partner, wherever it stands in atom2's bond list (selector);
+    the rotation itself is abstracted to arbitrary new positions"""
+    from pdb2pqr import residue as residue_mod
+
+    from . import c04
+
+    bm, res = c04._setup(resname, "internal", False)
+    atom2 = res.get_atom(centre)
+    partners = list(atom2.bonds)
+    atom1 = partners[eng.choice("axis_partner_index_in_bond_list", len(partners))]
+    before = {a.name: (a.x, a.y, a.z) for a in res.atoms}
+
+    class Quat:
+        @staticmethod
+        def qchichange(initcoords, movecoords, angle):
+            return [[eng.real(f"moved{i}_{ax}") for ax in "xyz"] for i in range(len(movecoords))]
+
+    sym = [(residue_mod, "quat", Quat), (residue_mod.util, "np", shims.NP)] if eng.symbolic else []
+    with patched(*sym):
+        res.rotate_tetrahedral(atom1, atom2, 37.0)
+    if eng.symbolic:
+        changed = {a.name for a in res.atoms if any(now is not was for now, was in zip((a.x, a.y, a.z), before[a.name]))}
+    else:
+        changed = {a.name for a in res.atoms if max(abs(now - was) for now, was in zip((a.x, a.y, a.z), before[a.name])) > 1e-9}
+    want = {a.name for a in partners if a is not atom1}
+    eng.check(changed == want, "rotates-the-other-substituents-of-atom2", note=f"{resname}: rotate_tetrahedral({atom1.name}, {atom2.name}) with bond list {[a.name for a in partners]} moved {sorted(changed)}, the substituents other than the axis partner are {sorted(want)}")
+
+
 def h_dihedral_record(eng, resname, anglenum):
     """after Debump.set_dihedral_angle the recorded torsion (residue.dihedrals[n], from which the NEXT call
     computes its rotation) is the torsion of the coordinates as they are NOW.  utilities.dihedral is an
@@ -461,6 +491,8 @@ def obligations(tier):
         obs.append(Obligation(f"lemma-place-n{n}", run_lemma, dict(body="place", n=n), kind="lemma", group="lemma"))
     # h_jacobi_rotation (one real rotation step on a symbolic matrix) was probed: z3 answers unknown
     # after 60 s on the eigen-equations through 1/(|q|+sqrt(1+q^2)); it is not registered (DESIGN 2.1.6)
+    for resname, centre in (("SER", "CB"), ("LYS", "NZ")) if tier == "quick" else (("SER", "CB"), ("SER", "OG"), ("LYS", "NZ"), ("LYS", "CE"), ("THR", "CB"), ("ALA", "CA"), ("MET", "CE")):
+        obs.append(Obligation(f"tetrahedral-movers-{resname}-{centre}", h_tetrahedral_movers, dict(resname=resname, centre=centre), group="tetrahedral-movers", time_cap=600))
     for resname, k in (("LYS", 0), ("LYS", 3)) if tier == "quick" else (("LYS", 0), ("LYS", 1), ("LYS", 2), ("LYS", 3), ("SER", 0), ("ARG", 2), ("MET", 1), ("HIS", 1)):
         obs.append(Obligation(f"dihedral-record-{resname}-chi{k + 1}", h_dihedral_record, dict(resname=resname, anglenum=k), group="dihedral-record", time_cap=600))
     obs.append(Obligation("jacobi-sorted-nonzero", h_jacobi_sorted, dict(zero_allowed=False), group="jacobi", time_cap=1200))
